@@ -5,6 +5,7 @@ import (
 	"errors"
 	"fmt"
 	"github.com/hneemann/iterator"
+	"github.com/hneemann/parser2"
 	"github.com/hneemann/parser2/funcGen"
 	"github.com/hneemann/parser2/listMap"
 	"math"
@@ -292,6 +293,52 @@ func ToFloat(name string, st funcGen.Stack[Value], n int) (float64, error) {
 	}
 }
 
+// recoverToError converts a panic to an error. It is used in code that may
+// run in a goroutine other than the one that evaluates the expression, because
+// a panic in such a goroutine is not recovered by the generated function and
+// would terminate the process.
+func recoverToError(err *error) {
+	if rec := recover(); rec != nil {
+		*err = parser2.AnyToError(rec)
+	}
+}
+
+// isolated returns a producer that can be run in its own goroutine: It uses its
+// own stack, because the stack of the caller is used concurrently, and a panic
+// is sent to the consumer as an error.
+func (l *List) isolated() iterator.Producer[Value] {
+	return func(yield iterator.Consumer[Value]) {
+		var err error
+		func() {
+			defer recoverToError(&err)
+			l.iterable(funcGen.NewEmptyStack[Value]())(yield)
+		}()
+		if err != nil {
+			yield(nil, err)
+		}
+	}
+}
+
+// guardConsumer is used if the consumer may be called from another goroutine.
+// A panic raised by the consumer stops the iteration and is raised again by
+// the returned function, which has to be called in the calling goroutine.
+func guardConsumer(yield iterator.Consumer[Value]) (iterator.Consumer[Value], func()) {
+	var pan any
+	return func(v Value, err error) (ok bool) {
+			defer func() {
+				if rec := recover(); rec != nil {
+					pan = rec
+					ok = false
+				}
+			}()
+			return yield(v, err)
+		}, func() {
+			if pan != nil {
+				panic(pan)
+			}
+		}
+}
+
 func (l *List) Accept(sta funcGen.Stack[Value]) (*List, error) {
 	f, err := ToFunc("accept", sta, 1, 1)
 	if err != nil {
@@ -300,9 +347,10 @@ func (l *List) Accept(sta funcGen.Stack[Value]) (*List, error) {
 	return NewListFromIterable(func(st funcGen.Stack[Value]) iterator.Producer[Value] {
 		// The producer gets its own stack: as soon as the filter is executed in parallel, the
 		// consumer is called from another goroutine while the producer is still running.
-		return iterator.FilterAuto[Value](l.iterable(funcGen.NewEmptyStack[Value]()), func() func(v Value) (bool, error) {
+		filtered := iterator.FilterAuto[Value](l.iterable(funcGen.NewEmptyStack[Value]()), func() func(v Value) (bool, error) {
 			s := funcGen.NewEmptyStack[Value]()
-			return func(v Value) (bool, error) {
+			return func(v Value) (acc bool, err error) {
+				defer recoverToError(&err)
 				eval, err := f.Eval(s, v)
 				if err != nil {
 					return false, err
@@ -313,6 +361,11 @@ func (l *List) Accept(sta funcGen.Stack[Value]) (*List, error) {
 				return false, fmt.Errorf("function in accept does not return a bool")
 			}
 		})
+		return func(yield iterator.Consumer[Value]) {
+			guarded, rethrow := guardConsumer(yield)
+			filtered(guarded)
+			rethrow()
+		}
 	}), nil
 }
 
@@ -324,12 +377,18 @@ func (l *List) Map(sta funcGen.Stack[Value]) (*List, error) {
 	return NewListFromSizedIterable(func(st funcGen.Stack[Value]) iterator.Producer[Value] {
 		// The producer gets its own stack: as soon as the map is executed in parallel, the
 		// consumer is called from another goroutine while the producer is still running.
-		return iterator.MapAuto[Value, Value](l.iterable(funcGen.NewEmptyStack[Value]()), func() func(i int, v Value) (Value, error) {
+		mapped := iterator.MapAuto[Value, Value](l.iterable(funcGen.NewEmptyStack[Value]()), func() func(i int, v Value) (Value, error) {
 			s := funcGen.NewEmptyStack[Value]()
-			return func(i int, v Value) (Value, error) {
+			return func(i int, v Value) (res Value, err error) {
+				defer recoverToError(&err)
 				return f.Eval(s, v)
 			}
 		})
+		return func(yield iterator.Consumer[Value]) {
+			guarded, rethrow := guardConsumer(yield)
+			mapped(guarded)
+			rethrow()
+		}
 	}, l.size), nil
 }
 
@@ -404,8 +463,9 @@ func (l *List) Merge(sta funcGen.Stack[Value]) (*List, error) {
 	}
 	if otherList, ok := other.ToList(); ok {
 		return NewListFromIterable(func(st funcGen.Stack[Value]) iterator.Producer[Value] {
-			// Both producers are executed in their own goroutine, so each one needs its own stack.
-			return iterator.Merge(l.iterable(funcGen.NewEmptyStack[Value]()), otherList.iterable(funcGen.NewEmptyStack[Value]()),
+			// Both producers are executed in their own goroutine, so each one
+			// needs its own stack and has to recover panics.
+			return iterator.Merge(l.isolated(), otherList.isolated(),
 				func(a, b Value) (bool, error) {
 					st.Push(a)
 					st.Push(b)
